@@ -90,6 +90,11 @@ type PairScenario struct {
 	Skew    int      `json:"skew,omitempty"`
 	Rounds  int      `json:"rounds"`
 	Witness *History `json:"witness,omitempty"`
+	// Family: "" = a writer to what exists against a value-dependent delete (this file);
+	// "access" = accessors against root transitions (c10_pairaccess_test.go). Labels only.
+	Family string `json:"family,omitempty"`
+	// State: (access) what the setup leaves behind (labels only)
+	State string `json:"state,omitempty"`
 }
 
 type padCounter struct {
@@ -130,7 +135,8 @@ type pairRun struct {
 }
 
 type pairStats struct {
-	forms      int // distinct canonical forms
+	lab        map[string]bool // what the rounds given to the full judges exercised (accessLabels)
+	forms      int             // distinct canonical forms
 	outcomes   map[string]int
 	overlap    int // stamped rounds in which operations of two racers overlapped
 	judgedFull int
@@ -187,14 +193,14 @@ func (p *pairRun) operate(g int, r int64) {
 	}
 	for i := range ops {
 		o := &ops[i]
-		var l *ctree.Leaf
-		if o.Kind == "hval" || o.Kind == "hupd" {
-			if cur.l == nil {
-				continue // no handle: the operation is not performed (Call stays 0)
-			}
-			l, o.H, o.Path = cur.l, cur.h, cur.path
+		l, ok := bindOp(o, cur, ops[:i])
+		if !ok {
+			continue // no handle / no such name: the operation is not performed (Call stays 0)
 		}
-		perform(p.tr, o, l, now)
+		got := perform(p.tr, o, l, now)
+		if o.Kind == "getleaf" {
+			cur = retained(o, got)
+		}
 	}
 }
 
@@ -248,8 +254,10 @@ func (p *pairRun) lead() {
 		for i := range setup {
 			x := &setup[i]
 			got := perform(tr, x, nil, snow)
-			if x.Kind == "getleaf" && got != nil {
-				p.hnd[p.forRacer(i)] = burstHandle{got, x.H, x.Path}
+			if x.Kind == "getleaf" {
+				if hd := retained(x, got); hd.n != nil {
+					p.hnd[p.forRacer(i)] = hd
+				}
 			}
 		}
 		p.tr = tr
@@ -285,6 +293,9 @@ func (p *pairRun) forRacer(setupIndex int) int {
 // history assembles the recorded round.
 func (p *pairRun) history(setup []HOp, fin *HOp) *History {
 	h := &History{Workers: p.n, Start: "populated"}
+	if p.sc.State == "fresh" || p.sc.State == "emptied" {
+		h.Start = "empty"
+	}
 	h.Ops = append(h.Ops, setup...)
 	k := len(h.Ops)
 	for g := range p.ops {
@@ -337,7 +348,15 @@ func appendResult(b []byte, o *HOp) []byte {
 			b = strconv.AppendInt(b, int64(v), 10)
 			b = append(b, ',')
 		}
-	case "query", "walk", "final":
+	case "children", "nkids", "isbranch", "nisbr":
+		b = append(b, o.Node...)
+		for _, x := range o.Names {
+			b = append(b, ',')
+			b = append(b, x...)
+		}
+	case "nval":
+		b = strconv.AppendInt(b, int64(o.Got), 10)
+	case "query", "walk", "final", "nstr", "nwalk":
 		if len(o.KV) > 1 && !o.Sorted {
 			sort.Slice(o.KV, func(i, j int) bool { return strings.Join(o.KV[i].P, "/") < strings.Join(o.KV[j].P, "/") })
 		}
@@ -405,6 +424,9 @@ func (p *pairRun) judgeRound(setup []HOp, fin *HOp, r int64) (stop bool) {
 	}
 	h := p.history(setup, fin)
 	p.stats.judgedFull++
+	if p.sc.Family == "access" {
+		accessLabels(h, p.stats.lab)
+	}
 	f, inc := judgeSmall(h, true)
 	if f != nil {
 		p.fail, p.witness = f, h
@@ -428,6 +450,7 @@ func runPair(sc *PairScenario, rounds int) (labels []string, nontrivial bool, do
 	p := &pairRun{sc: sc, n: n, stamped: sc.Stamped, hnd: make([]burstHandle, n), tmpl: make([][]HOp, n), bufs: [2][][]HOp{make([][]HOp, n), make([][]HOp, n)},
 		panics: make([]string, n), cache: map[string]bool{}, rounds: rounds, fullEvery: *c10PairFull}
 	p.stats.outcomes = map[string]int{}
+	p.stats.lab = map[string]bool{}
 	p.spin = runtime.GOMAXPROCS(0) >= 2*n
 	for i, o := range sc.Setup {
 		p.setupT = append(p.setupT, burstHOp(99, o, 10+i))
@@ -435,7 +458,7 @@ func runPair(sc *PairScenario, rounds int) (labels []string, nontrivial bool, do
 	p.base = int64(2*len(sc.Setup) + 1)
 	for g, prog := range sc.Racers {
 		for i, o := range prog {
-			p.tmpl[g] = append(p.tmpl[g], burstHOp(g, o, 100*(g+1)+i+1))
+			p.tmpl[g] = append(p.tmpl[g], burstHOps(g, o, 100*(g+1)+i+1)...)
 		}
 		for k := range p.bufs {
 			p.bufs[k][g] = make([]HOp, len(p.tmpl[g]))
@@ -448,6 +471,9 @@ func runPair(sc *PairScenario, rounds int) (labels []string, nontrivial bool, do
 	}
 	stuck, deadlock := watched("ctreeprop.(*pairRun).worker", *c10Stall, *c10Confirm, wg.Wait)
 	lab := pairStaticLabels(sc)
+	if sc.Family == "access" {
+		lab = accessStaticLabels(sc)
+	}
 	if stuck != "" {
 		if deadlock {
 			return nil, false, 0, &burstFail{"deadlock", stuck}
@@ -481,6 +507,9 @@ func runPair(sc *PairScenario, rounds int) (labels []string, nontrivial bool, do
 	}
 	if p.stats.overlap > 0 {
 		lab["observed:stamped-overlap"] = true
+	}
+	for l := range p.stats.lab {
+		lab["observed:"+l] = true
 	}
 	lab[fmt.Sprintf("forms-judged-by-the-full-judges:%s", bucket(p.stats.forms))] = true
 	for l := range lab {
@@ -595,15 +624,17 @@ func pairStaticLabels(sc *PairScenario) map[string]bool {
 }
 
 // TestC10Pair: see the file comment.
-func TestC10Pair(t *testing.T) {
+func TestC10Pair(t *testing.T) { runPairPart(t, "pair", genPair) }
+
+func runPairPart(t *testing.T, part string, gen func(*rapid.T) *PairScenario) {
 	if !vstat.Enabled("C10") {
 		t.Skip()
 	}
-	rec := vstat.New("C10", "pair")
+	rec := vstat.New("C10", part)
 	total, cases := 0, 0
 	start := time.Now()
 	rec.RunRapid(t, func(rt *rapid.T) {
-		sc := genPair(rt)
+		sc := gen(rt)
 		for _, f := range strings.Split(*c10PairForce, ",") {
 			switch f {
 			case "stamped":
@@ -612,6 +643,9 @@ func TestC10Pair(t *testing.T) {
 				sc.Stamped = false
 				for g := range sc.Racers {
 					sc.Racers[g] = sc.Racers[g][:1]
+					if sc.Racers[g][0].Kind == "reset" {
+						sc.Stamped = true // (several recorded operations: program order needs the stamps)
+					}
 				}
 			case "noskew":
 				sc.Skew = 0
@@ -642,7 +676,7 @@ func TestC10Pair(t *testing.T) {
 		rec.Case(sc, nontrivial, append(labels, rl)...)
 	})
 	el := time.Since(start)
-	rec.Note("pair: %d rounds in %v (%.0f rounds/s), every round judged (canonical form looked up; first occurrence and one round in %d by the full judges)", total, el.Round(time.Millisecond), float64(total)/el.Seconds(), *c10PairFull)
+	rec.Note(part+": %d rounds in %v (%.0f rounds/s), every round judged (canonical form looked up; first occurrence and one round in %d by the full judges)", total, el.Round(time.Millisecond), float64(total)/el.Seconds(), *c10PairFull)
 	rec.Flush(t.Failed() || cases >= vstat.RapidChecks())
 }
 
@@ -664,7 +698,7 @@ func replayPair(rf *vstat.ReplayFile) string {
 		if sc.Stamped = stamped; !stamped {
 			multi := false
 			for _, prog := range sc.Racers {
-				multi = multi || len(prog) > 1
+				multi = multi || len(prog) > 1 || (len(prog) == 1 && prog[0].Kind == "reset")
 			}
 			if multi {
 				continue // without stamps program order is not recorded: one operation per racer only
